@@ -81,7 +81,22 @@ static void history(const std::string& s1, const std::string& s2, const std::str
   masa_init<LD>(h1, s1); masa_init<LD>(h2, s2); masa_init<LD>(h1, s2); for (int k = 0; k < API_N; k += 3) { API_TABLE[k].cl(A); API_TABLE[k].cl(AX); g_calls += 2; } g_calls += 3;
   masa_printid<double>(); masa_init<double>(h2, s1); g_calls += 2;
 }
+// exit-time use: an application that registered its clean-up hook (atexit) or constructed its own static objects BEFORE its first MASA call
+// may still use the library from that hook -- the registries must outlive it (they are library statics, constructed at load time)
+static int g_hook_bad = 0;
+static void exit_hook() {
+  std::string nm; int dim = -1;
+  masa_select_mms<double>("x1"); masa_get_name<double>(&nm); masa_get_dimension<double>(&dim); double v = masa_get_param<double>("u_0"); masa_list_mms<double>(); masa_list_mms<LD>();
+  if (nm != "euler_1d" || dim != 1 || v != 7.25) { g_hook_bad = 1; fprintf(stderr, "exit hook: handle x1 no longer holds euler_1d with u_0 = 7.25 (name '%s', dim %d, u_0 %g)\n", nm.c_str(), dim, v); fflush(stderr); _exit(3); }
+}
+static int mode_atexit() {
+  atexit(exit_hook);  // registered before the library is touched for the first time
+  quiet();
+  masa_init<double>("x1", "euler_1d"); masa_set_param<double>("u_0", 7.25); masa_init<double>("x2", "heateq_2d_steady_const"); masa_init<LD>("y1", "laplace_2d");
+  exit(0);
+}
 int main(int argc, char** argv) {
+  if (argc > 2 && std::string(argv[1]) == "--mode" && std::string(argv[2]) == "atexit") return mode_atexit();
   std::string mode = "fork", out; bool single = false; int stride = 1;
   for (int i = 1; i < argc; i++) { std::string a = argv[i]; if (a == "--mode") mode = argv[++i]; else if (a == "--out") out = argv[++i]; else if (a == "--single") single = true; else if (a == "--stride") stride = atoi(argv[++i]); }
   { int pfd[2]; if (pipe(pfd)) return 2; pid_t pid = fork(); if (pid == 0) { close(pfd[0]); dup2(pfd[1], 1); masa_printid<double>(); std::cout.flush(); _exit(0); } close(pfd[1]); std::string s; char b[4096]; ssize_t n; while ((n = read(pfd[0], b, sizeof b)) > 0) s.append(b, n); close(pfd[0]); int st; waitpid(pid, &st, 0); names = parse_names(s); }
